@@ -410,7 +410,7 @@ Fixpoint tset (name : N) (e : entry) (t : table) : table :=
 Fixpoint tdel (name : N) (t : table) : table :=
   match t with
   | [] => []
-  | (n, e') :: tl => if N.eqb name n then tl else (n, e') :: tdel name tl
+  | (n, e') :: tl => if N.eqb name n then tdel name tl else (n, e') :: tdel name tl
   end.
 
 Inductive tres := TOk | TErrOther | TErrUnknown.   (* nil / "associated with another factory" / ErrUnknown *)
